@@ -79,3 +79,63 @@ def register(reg):
                  serves=['C10'],
                  note='refuses an index outside 0..n-1; data section = the selected subsets in increasing order, each once (index maps of the '
                       'selection as ghosts); n_subsets = number of distinct indices; everything else identical; the source message is not written'))
+
+
+# ---- section layouts (the JSON definition files) as static facts about a configured section -------------------------------------
+# Every fact below is checked concretely against /repo/pybufrkit/definitions/*.json on every run (ground obligation
+# `definitions#layout` in classes.ground_checks); configuration transformers only truncate the parameter list or clear `expected`.
+TYPES = ('uint', 'int', 'bool', 'bin', 'bytes', 'unexpanded_descriptors', 'template_data')
+
+
+def layout(sec='section'):
+    P = '%s._params' % sec
+
+    def p(q):
+        return 'select(%s, %s)' % (P, q)
+    first_len = 'len(%s) >= 1 and select(%s, 0).name == "section_length"' % (P, P)
+    return ['%s != None' % sec, '%s != None' % P,
+            'forall(q, 0, len(%s), %s)' % (P, ' or '.join('%s.type == "%s"' % (p('q'), t) for t in TYPES)),
+            'forall(q, 0, len(%s), implies(%s.type == "uint", 1 <= %s.nbits and %s.nbits <= 64))' % (P, p('q'), p('q'), p('q')),
+            'forall(q, 0, len(%s), implies(%s.type == "int", 2 <= %s.nbits and %s.nbits <= 64))' % (P, p('q'), p('q'), p('q')),
+            'forall(q, 0, len(%s), implies(%s.type == "bool", %s.nbits == 1))' % (P, p('q'), p('q')),
+            'forall(q, 0, len(%s), implies(%s.type == "bytes" or %s.type == "bin", %s.nbits >= 0))' % (P, p('q'), p('q'), p('q')),
+            # parameter names are the keys of the section's namespace: pairwise distinct
+            'forall(q, 0, len(%s), forall(q2, q + 1, len(%s), %s.name != %s.name))' % (P, P, p('q'), p('q2')),
+            # a length field, when there is one, comes first and is a 24-bit unsigned integer
+            'forall(q, 0, len(%s), implies(%s.name == "section_length", q == 0 and %s.type == "uint" and %s.nbits == 24))' % (P, p('q'), p('q'), p('q')),
+            # at most one parameter stands for the template data
+            'forall(q, 0, len(%s), forall(q2, q + 1, len(%s), not (%s.type == "template_data" and %s.type == "template_data")))' % (P, P, p('q'), p('q2')),
+            # parameters that extend to the end of the section need the declared length
+            'forall(q, 0, len(%s), implies(%s.nbits == 0 or %s.type == "unexpanded_descriptors", %s))' % (P, p('q'), p('q'), first_len)]
+
+
+def check_layouts(repo):
+    """the layout facts above, evaluated on every definition file -> (ok, detail)"""
+    import glob
+    import json
+    import os
+    bad = []
+    files = sorted(glob.glob(os.path.join(repo, 'pybufrkit', 'definitions', 'section*.json')))
+    for f in files:
+        d = json.load(open(f))
+        ps = d['parameters']
+        names = [x['name'] for x in ps]
+        for q, x in enumerate(ps):
+            t, nb = x['type'], x['nbits']
+            ok = (t in TYPES and (t != 'uint' or 1 <= nb <= 64) and (t != 'int' or 2 <= nb <= 64) and (t != 'bool' or nb == 1)
+                  and (t not in ('bytes', 'bin') or nb >= 0) and (t != 'bytes' or nb % 8 == 0)
+                  and (x['name'] != 'section_length' or (q == 0 and t == 'uint' and nb == 24))
+                  and (not (nb == 0 or t == 'unexpanded_descriptors') or names[0] == 'section_length')
+                  and (x['name'] != 'length' or (t == 'uint' and nb == 24)))
+            if not ok:
+                bad.append('%s: parameter %s' % (os.path.basename(f), x['name']))
+        if sum(1 for x in ps if x['type'] == 'template_data') > 1:
+            bad.append('%s: more than one template_data parameter' % os.path.basename(f))
+        if any(x['type'] == 'template_data' for x in ps) and any(x['name'] in ('is_compressed', 'n_subsets') for x in ps):
+            bad.append('%s: the data section redefines is_compressed / n_subsets' % os.path.basename(f))
+        if len(set(names)) != len(names):
+            bad.append('%s: duplicate parameter names' % os.path.basename(f))
+        if not isinstance(d.get('index'), int):
+            bad.append('%s: index' % os.path.basename(f))
+    return (not bad and len(files) >= 6), ('%d definition files satisfy the layout facts assumed of configured sections' % len(files)
+                                          if not bad else '; '.join(bad))
